@@ -191,9 +191,69 @@ def run_mutex(doc: dict) -> dict:
     return res
 
 
+def gen_skipping(rng: random.Random) -> dict:
+    """A loop whose waiter SKIPS productions: tick(c)->(c+1, s=(c+1)//2) under a gate (s changes every second tick), produce(c) emits the
+    signal after every tick, consume(s) waits for it. From its second run on the waiter turns stale in the very step in which the
+    producer is ready again: it must be deferred, never run beside the producer."""
+    return {"kind": "skipping", "limit": rng.randint(4, 9), "order_seed": rng.randrange(1 << 30), "async": [gen.gen_async_cfg(rng)]}
+
+
+def run_skipping(doc: dict) -> dict:
+    from hgsim.loops import top_steps
+
+    res = empty_result()
+    nodes = [
+        {"kind": "fn", "name": "sk_tick", "params": [{"name": "skc"}], "outs": ["skc", "sks"], "behs": [{"beh": "inc", "param": "skc"}, {"beh": "half_next", "param": "skc"}]},
+        {"kind": "fn", "name": "sk_prod", "params": [{"name": "skc"}], "outs": ["skp"], "emit": ["sksig"]},
+        {"kind": "fn", "name": "sk_cons", "params": [{"name": "sks"}], "outs": ["skw"], "wait_for": ["sksig"]},
+        {"kind": "route", "name": "sk_again", "params": [{"name": "skc"}], "targets": ["sk_tick", "@END"], "decide": {"op": "lt", "param": "skc", "value": doc["limit"], "then": "sk_tick", "else": "@END"}},
+    ]
+    order = list(range(len(nodes)))
+    random.Random(doc["order_seed"]).shuffle(order)
+    spec = {"name": "top", "nodes": nodes, "order": order}
+    viol: list = []
+    rts = []
+    together = 0
+    try:
+        for i, (mode, cfg) in enumerate([("sync", None)] + [("async", c) for c in doc["async"]]):
+            w = run_world(copy.deepcopy(spec), {"skc": 0}, mode=mode, cfg=cfg)
+            rts.append(w["rt"])
+            res["runs"] += 1
+            out = w["out"]
+            tag = f"{mode}{i}[skipping]"
+            if out["status"] != "completed":
+                viol.append((f"{tag}:run_not_completed", {"status": out["status"], "error": out["error"]}))
+                continue
+            steps = top_steps(w["rt"])
+            for si, st in enumerate(steps):
+                if "sk_cons" in st["ready"] and "sk_prod" in st["ready"]:
+                    viol.append((f"{tag}:waiter_started_in_the_step_of_its_producer", {"step": si, "ready": st["ready"], "order": order}))
+                    break
+            n_cons = len(enters(w["rt"], "sk_cons"))
+            n_prod = len(enters(w["rt"], "sk_prod"))
+            together += 1 if n_cons >= 2 and n_prod > n_cons else 0
+            if (out["values"] or {}).get("skw") is None or n_cons < 2:
+                viol.append((f"{tag}:waiting_node_never_ran", {"consume_runs": n_cons, "produce_runs": n_prod}))
+    except BuildError as e:
+        res["discard"] = "build_error"
+        res["detail"] = str(e)[:200]
+        return res
+    res["violations"] = viol
+    res["nontrivial"] = together > 0
+    res["stats"]["waiter_that_skips_productions_cases"] = 1
+    res["shape"] = digest(["skipping", doc["limit"], order], 8)
+    res["sched"] = "-"
+    res["sig"] = res["shape"]
+    res["hdigest"] = hist_digest(rts)
+    return res
+
+
 def gen_case(rng: random.Random, tier: str) -> dict:
-    if rng.random() < 0.04:
+    r0 = rng.random()
+    if r0 < 0.04:
         return gen_mutex(rng)
+    if r0 < 0.07:
+        return gen_skipping(rng)
     if rng.random() < 0.3:
         blk = gen.loop_block(rng, "L", signal=rng.random() < 0.7)
         if rng.random() < 0.5:
@@ -318,6 +378,8 @@ def expected_runs(g: dict) -> dict[str, bool]:
 def run_case(doc: dict) -> dict:
     if doc["kind"] == "mutex":
         return run_mutex(doc)
+    if doc["kind"] == "skipping":
+        return run_skipping(doc)
     if doc["kind"] == "loop":
         return _run_loop(doc)
     res = empty_result()
@@ -479,6 +541,12 @@ def _run_loop(doc: dict) -> dict:
 
 
 def shrink_candidates(doc: dict):
+    if doc["kind"] == "skipping":
+        if doc["limit"] > 4:
+            yield dict(doc, limit=doc["limit"] - 1)
+        if doc["order_seed"]:
+            yield dict(doc, order_seed=0)
+        return
     if doc["kind"] == "mutex":
         for k, v in (("downstream_gate", False), ("data", False), ("order_seed", 0)):
             if doc.get(k) != v:
@@ -553,6 +621,8 @@ def signature(doc: dict, cls: str, detail) -> str:
 
 
 def sample_repr(doc: dict, res: dict):
+    if doc["kind"] == "skipping":
+        return {"template": "loop whose waiter skips every other production of the signal", "limit": doc["limit"]}
     if doc["kind"] == "mutex":
         return {"template": "two producers of one signal on exclusive gate branches, one waiter", **{k: doc[k] for k in ("pick", "entry", "data", "downstream_gate")}}
     if doc["kind"] == "loop":
